@@ -179,6 +179,12 @@ impl Seen {
     }
 }
 
+/// A second element type with the layout, destructor and Clone of `T` but another TypeId
+/// (destination of `clone_from` across element types).
+#[repr(transparent)]
+#[derive(Clone)]
+pub struct Alt<T>(pub T);
+
 pub trait Elem: 'static + Clone + Sized + Send + Sync {
     const NAME: &'static str;
     const TRACKED: bool;
